@@ -1201,8 +1201,10 @@ func derivesFromBytesEqual(p *Prog, v ssa.Value, depth int) bool {
 	}
 	switch x := v.(type) {
 	case *ssa.Call:
-		if calleeName(&x.Call) == "bytes.Equal" {
-			return true
+		if calleeName(&x.Call) == "bytes.Equal" && len(x.Call.Args) == 2 {
+			// one side is what the screen's own encoder makes of U+FFFD (a fixed byte string is the
+			// encoding in one character set only: GB18030 has its own)
+			return fromScreenEncoder(x.Call.Args[0], 0) || fromScreenEncoder(x.Call.Args[1], 0)
 		}
 		if callee := x.Call.StaticCallee(); callee != nil && p.allFns[callee] && callee.Pkg == p.Tcell {
 			for _, r := range returnsOf(callee) {
@@ -1548,4 +1550,73 @@ func helperAlwaysAppends(h *ssa.Function, evs *ssa.Parameter) bool {
 		}
 	}
 	return true
+}
+
+// fromScreenEncoder: v holds output of the screen's encoder: the result of transform.Bytes / String /
+// Append with the `encoder` field as transformer, of a method invoked on it, or the destination buffer
+// of its Transform.
+func fromScreenEncoder(v ssa.Value, depth int) bool {
+	if depth > 4 {
+		return false
+	}
+	isEnc := func(a ssa.Value) bool {
+		for {
+			switch y := a.(type) {
+			case *ssa.ChangeInterface:
+				a = y.X
+				continue
+			case *ssa.MakeInterface:
+				a = y.X
+				continue
+			}
+			break
+		}
+		ref, _, ok := loadedField(a)
+		return ok && ref.Name == "encoder"
+	}
+	switch x := v.(type) {
+	case *ssa.Extract:
+		return fromScreenEncoder(x.Tuple, depth+1)
+	case *ssa.Slice:
+		return fromScreenEncoder(x.X, depth+1)
+	case *ssa.Phi:
+		for _, e := range x.Edges {
+			if fromScreenEncoder(e, depth+1) {
+				return true
+			}
+		}
+	case *ssa.Call:
+		if x.Call.IsInvoke() {
+			return isEnc(x.Call.Value)
+		}
+		for _, a := range x.Call.Args {
+			if isEnc(a) {
+				return true
+			}
+		}
+	case *ssa.Alloc, *ssa.MakeSlice:
+		// a buffer: the destination of the encoder's Transform
+		for _, r := range referrers(v) {
+			var user ssa.Value
+			switch y := r.(type) {
+			case *ssa.Slice:
+				user = y
+			default:
+				continue
+			}
+			for _, r2 := range referrers(user) {
+				if cc := callCommon(r2); cc != nil && cc.IsInvoke() && cc.Method.Name() == "Transform" && len(cc.Args) == 3 && cc.Args[0] == user && isEnc(cc.Value) {
+					return true
+				}
+			}
+		}
+		if ms, ok := v.(*ssa.MakeSlice); ok {
+			for _, r2 := range referrers(ms) {
+				if cc := callCommon(r2); cc != nil && cc.IsInvoke() && cc.Method.Name() == "Transform" && len(cc.Args) == 3 && cc.Args[0] == ssa.Value(ms) && isEnc(cc.Value) {
+					return true
+				}
+			}
+		}
+	}
+	return false
 }
